@@ -28,6 +28,9 @@ ID = "C02"
 LEVEL = "exploration"
 DESIGN_REF = "DESIGN.md#C02"
 TECHNIQUE = "runtime monitoring: history + executable model (sequential map objid->latest value) checked against getobj/get_objids/catalog over metamorphic physical renderings"
+LEVEL_TEXT = (
+    'Exploration with an executable specification: random revision histories with unique (revision, object) markers are rendered in three physical forms each and read back under caching on/off and three buffer sizes; getobj, the union of get_objids, catalog and info are compared with a 20-line sequential map, and damaged single-revision files with the body scan. Right level because the space (histories x physical forms x EOL styles x widths) is unbounded and the oracle is cheap and exact; unique markers make every read identify the write it observed.'
+)
 RULE = (
     "random histories (1..5 revisions quick, ..9 thorough; sparse object numbers; overrides; root/info redefinition) x "
     "physical form per revision {table, xref stream (W variants, /Index multi-range or absent, Flate/PNG-Up/raw), hybrid} x "
